@@ -130,6 +130,15 @@ func keyCases(r *rand.Rand, wrap func(keys A) interface{}) []pcase {
 	mut("key-id-empty", func(k M) { k["id"] = "" })
 	mut("key-id-51", func(k M) { k["id"] = randID(r, 51) })
 	mut("key-id-bad-char", func(k M) { k["id"] = "ab" + []string{" ", ".", "é", "#", "/", "\n"}[r.Intn(6)] + "c" })
+	// every printable ASCII character outside [A-Za-z0-9_-], at the start, inside and at the end of an id
+	for c := 0x20; c < 0x7f; c++ {
+		ch := string(rune(c))
+		if (c >= '0' && c <= '9') || (c >= 'A' && c <= 'Z') || (c >= 'a' && c <= 'z') || c == '_' || c == '-' {
+			continue
+		}
+		id := []string{ch + "ab", "a" + ch + "b", "ab" + ch}[c%3]
+		mut(fmt.Sprintf("key-id-char-0x%02x", c), func(k M) { k["id"] = id })
+	}
 	mut("key-id-trailing-newline", func(k M) { k["id"] = "abc\n" })
 	mut("key-id-not-string", func(k M) { k["id"] = 5.0 })
 	mut("key-missing-id", func(k M) { delete(k, "id") })
@@ -160,6 +169,30 @@ func keyCases(r *rand.Rand, wrap func(keys A) interface{}) []pcase {
 					k["purposes"] = A{p}
 				})
 			}
+		}
+	}
+	// several purposes of which a later one is not permitted for the type (the first is)
+	for _, ty := range allKeyTypes {
+		var okP, badP []string
+		for _, p := range allPurposes {
+			if typeAllowed(ty, p) {
+				okP = append(okP, p)
+			} else {
+				badP = append(badP, p)
+			}
+		}
+		if len(okP) == 0 || len(badP) == 0 {
+			continue
+		}
+		ty := ty
+		for _, ps := range []A{{okP[0], badP[0]}, {okP[len(okP)-1], okP[0], badP[len(badP)-1]}, {okP[0], badP[0], okP[0]}} {
+			ps := ps
+			mut(fmt.Sprintf("key-type-later-purpose:%s/%v", ty, ps), func(k M) {
+				k["type"] = ty
+				delete(k, "publicKeyBase58")
+				k["publicKeyJwk"] = validJWK(r)
+				k["purposes"] = ps
+			})
 		}
 	}
 	// malformed JWK for every key type
@@ -221,6 +254,10 @@ func serviceCases(r *rand.Rand, wrap func(s A) interface{}) []pcase {
 	mut("service-id-missing", func(s M) { delete(s, "id") })
 	mut("service-id-51", func(s M) { s["id"] = randID(r, 51) })
 	mut("service-id-bad-char", func(s M) { s["id"] = "a" + []string{" ", ":", "é", "+"}[r.Intn(4)] })
+	for _, ch := range []string{"[", "\\", "]", "^", "`", "@", "{", "~"} {
+		ch := ch
+		mut("service-id-char:"+ch, func(s M) { s["id"] = "a" + ch + "b" })
+	}
 	mut("service-type-empty", func(s M) { s["type"] = "" })
 	mut("service-type-missing", func(s M) { delete(s, "type") })
 	mut("service-type-31", func(s M) { s["type"] = randID(r, 31) })
@@ -274,6 +311,11 @@ func genPatchCases(r *rand.Rand) []pcase {
 			pcase{act + ":id-51", M{"action": act, "ids": A{"ok", randID(r, 51)}}, false},
 			pcase{act + ":id-empty", M{"action": act, "ids": A{"", "ok"}}, false},
 			pcase{act + ":id-bad-char", M{"action": act, "ids": A{"ok", "not ok"}}, false},
+			pcase{act + ":id-bracket", M{"action": act, "ids": A{"ok", "a[b"}}, false},
+			pcase{act + ":id-backslash", M{"action": act, "ids": A{"a\\b"}}, false},
+			pcase{act + ":id-caret", M{"action": act, "ids": A{"ok", "ok2", "^"}}, false},
+			pcase{act + ":id-backtick", M{"action": act, "ids": A{"`x"}}, false},
+			pcase{act + ":id-close-bracket", M{"action": act, "ids": A{"x]"}}, false},
 		)
 	}
 	for _, act := range []string{"add-also-known-as", "remove-also-known-as"} {
